@@ -91,7 +91,7 @@ def run(prog, chk):
                          and 'unordered_map<std::string' in x.get('ot', '')]
                 if finds:
                     walks.append((f, n, finds))
-    chk.count('by-name scope walks', len(walks), 3)
+    chk.count('by-name scope walks', len(walks), 2)
     markers = set()
     for f, loop, finds in walks:
         ok = False
